@@ -147,13 +147,14 @@ for k in range(N):
             fail(f"roundtrip:ax:{hemi}", "from_axes_angles(to_axes_angles(q)) is another rotation", rep)
     elif w_true > 1e-6:
         fail(f"roundtrip:ax:{hemi}", "to_axes_angles() returns a null rotation for a non-trivial one", rep)
-    # Rodrigues-Frank (documented exclusion within 1e-3 of pi)
-    if abs(w_true - PI) > 2e-3 and w_true > 1e-6:
+    # Rodrigues and Rodrigues-Frank, including rotations by exactly pi (the vector is then ~1e16 long / has an
+    # infinite fourth component, and must still come back as the same rotation)
+    if w_true > 1e-6:
         q_rf = Quaternion.from_rodrigues(rof[:3], np.array([rof[3]])).data[0]
         if not same_rot(q_rf, q, 1e-6):
             fail(f"roundtrip:rofrank:{hemi}", "from_rodrigues(to_rodrigues(frank=True)) is another rotation", rep)
         ro3 = Q.to_rodrigues().data[0]
-        if np.linalg.norm(ro3) > 1e-4 and abs(w_true - PI) > 1e-2:
+        if np.linalg.norm(ro3) > 1e-4:
             q_r3 = Quaternion.from_rodrigues(ro3).data[0]
             if not same_rot(q_r3, q, 1e-6):
                 fail(f"roundtrip:ro:{hemi}", "from_rodrigues(to_rodrigues()) is another rotation", rep)
